@@ -13,9 +13,9 @@ import (
 
 // parserFacts: what config.ParseData establishes about the values it puts into config.Config.
 type parserFacts struct {
-	c     *Ctx
-	p     *Program
-	fn    *ssa.Function
+	c  *Ctx
+	p  *Program
+	fn *ssa.Function
 	// region: ParseData and the named functions of package config it (transitively) calls - a parser split into helpers
 	// (parseKey, parseAnalog, ...) is analysed as one unit
 	region map[*ssa.Function]bool
@@ -381,12 +381,18 @@ func (pf *parserFacts) proveRange(v ssa.Value, at *ssa.BasicBlock, lo, hi int64,
 	fn := at.Parent()
 	vw := pf.view(fn)
 	t := vw.Term(v)
-	atoms := append(vw.GuardsAt(at), pf.extra...)
 	init := bound{}
 	if tl, th := typeRangeOf(v.Type()); tl != th {
 		init = bound{lo: tl, hi: th, hasLo: true, hasHi: true}
 	}
-	b := boundsFrom(atoms, t.String(), init)
+	b := pf.boundsInterproc(at, t, init, 0) // dominating guards, hull over joining edges, validator facts, call sites
+	if len(pf.extra) > 0 {
+		eb := boundsFrom(pf.extra, t.String(), b)
+		for k := range b.excluded {
+			eb.excluded[k] = true
+		}
+		b = tighten(eb)
+	}
 	const inf = int64(1) << 61
 	if (b.hasLo && b.lo >= lo || lo <= -inf) && (b.hasHi && b.hi <= hi || hi >= inf) {
 		return true, fmt.Sprintf("dominating guards give %s in %s", t, b)
@@ -493,7 +499,7 @@ var configBounds = map[string]rng{
 // boundOK proves the semantic bound of every store into typ.field; returns per-site results.
 type boundResult struct {
 	Key, Pos, Why string
-	OK           bool
+	OK            bool
 }
 
 func (pf *parserFacts) checkBounds(typ, field string) []boundResult {
@@ -549,4 +555,195 @@ func (pf *parserFacts) litContext(lit *ssa.Alloc) string {
 		}
 	}
 	return "-"
+}
+
+// ---- interprocedural facts for proofs on access paths ------------------------------------------------------------
+
+// substTerm replaces every sub-term whose string is `from` by `to`.
+func substTerm(t *Term, from string, to *Term) *Term {
+	if t == nil {
+		return nil
+	}
+	if t.String() == from {
+		return to
+	}
+	if len(t.Args) == 0 {
+		return t
+	}
+	changed := false
+	args := make([]*Term, len(t.Args))
+	for i, a := range t.Args {
+		args[i] = substTerm(a, from, to)
+		if args[i] != a {
+			changed = true
+		}
+	}
+	if !changed {
+		return t
+	}
+	return &Term{Op: t.Op, Args: args, Aux: t.Aux, Obj: t.Obj, Type: t.Type, Cval: t.Cval}
+}
+
+// boundsInterproc: bounds of the access-path term t at block `at`, using
+//
+//	(1) the local guards and join hulls,
+//	(2) validator facts: `if err := validate(x); err != nil { return }` - on the nil side everything that holds on
+//	    every nil-error return of the (repository) callee holds for the arguments,
+//	(3) for a term over a parameter of a helper: what holds at every static call site for the corresponding argument.
+func (pf *parserFacts) boundsInterproc(at *ssa.BasicBlock, t *Term, init bound, depth int) bound {
+	fn := at.Parent()
+	vw := pf.view(fn)
+	b := vw.BoundsAt(at, t.String(), init)
+	if depth > 3 {
+		return b
+	}
+	meet := func(x, y bound) bound {
+		r := x
+		if r.excluded == nil {
+			r.excluded = map[int64]bool{}
+		}
+		if y.hasLo && (!r.hasLo || y.lo > r.lo) {
+			r.lo, r.hasLo = y.lo, true
+		}
+		if y.hasHi && (!r.hasHi || y.hi < r.hi) {
+			r.hi, r.hasHi = y.hi, true
+		}
+		for k := range y.excluded {
+			r.excluded[k] = true
+		}
+		return tighten(r)
+	}
+	// (2) validators
+	for _, a := range vw.GuardsAt(at) {
+		if a.Instr == nil {
+			continue
+		}
+		bo, ok := a.Instr.Cond.(*ssa.BinOp)
+		if !ok || (bo.Op != token.NEQ && bo.Op != token.EQL) {
+			continue
+		}
+		k, isK := bo.Y.(*ssa.Const)
+		if !isK || k.Value != nil || !isErrorType(bo.X.Type()) {
+			continue
+		}
+		nilSide := a.Taken == (bo.Op == token.EQL)
+		if !nilSide {
+			continue
+		}
+		// the error value: result of a call to a repository function
+		var call *ssa.Call
+		switch x := bo.X.(type) {
+		case *ssa.Call:
+			call = x
+		case *ssa.Extract:
+			call, _ = x.Tuple.(*ssa.Call)
+		}
+		if call == nil {
+			continue
+		}
+		h := call.Call.StaticCallee()
+		if h == nil || !pf.p.OwnedFunc(h) || len(h.Blocks) == 0 {
+			continue
+		}
+		// translate t into h's parameter terms
+		th := t
+		hv := pf.view(h)
+		for i, arg := range call.Call.Args {
+			if i < len(h.Params) {
+				th = substTerm(th, vw.Term(arg).String(), hv.Term(h.Params[i]))
+			}
+		}
+		if th == t {
+			continue
+		}
+		var hull *bound
+		errIdx := h.Signature.Results().Len() - 1
+		for _, hb := range h.Blocks {
+			if hb == h.Recover {
+				continue
+			}
+			r, ok := hb.Instrs[len(hb.Instrs)-1].(*ssa.Return)
+			if !ok || errIdx < 0 || errIdx >= len(r.Results) {
+				continue
+			}
+			if kc, isC := r.Results[errIdx].(*ssa.Const); !isC || kc.Value != nil {
+				continue // an error return (or an error of unknown value: then nothing is claimed about it)
+			}
+			rb := pf.boundsInterproc(hb, th, init, depth+1)
+			if hull == nil {
+				cp := rb
+				hull = &cp
+				continue
+			}
+			if !(hull.hasLo && rb.hasLo) {
+				hull.hasLo = false
+			} else if rb.lo < hull.lo {
+				hull.lo = rb.lo
+			}
+			if !(hull.hasHi && rb.hasHi) {
+				hull.hasHi = false
+			} else if rb.hi > hull.hi {
+				hull.hi = rb.hi
+			}
+			hull.excluded = map[int64]bool{}
+		}
+		// the callee may also return a non-constant error that happens to be nil: then its guards are unknown
+		nonConstErr := false
+		for _, hb := range h.Blocks {
+			if r, ok := hb.Instrs[len(hb.Instrs)-1].(*ssa.Return); ok && hb != h.Recover && errIdx >= 0 && errIdx < len(r.Results) {
+				if _, isC := r.Results[errIdx].(*ssa.Const); !isC {
+					if _, isErrorf := r.Results[errIdx].(*ssa.Call); !isErrorf {
+						nonConstErr = true
+					}
+				}
+			}
+		}
+		if hull != nil && !nonConstErr {
+			b = meet(b, *hull)
+		}
+	}
+	// (3) parameters of helpers: every call site
+	if fn != pf.fn && fn.Parent() == nil && len(fn.Params) > 0 {
+		mentions := -1
+		for i, prm := range fn.Params {
+			ps := vw.Term(prm).String()
+			if t.Any(func(x *Term) bool { return x.String() == ps }) {
+				mentions = i
+			}
+		}
+		if mentions >= 0 {
+			if sites, ok := staticCallSites(pf.p, fn); ok {
+				var hull *bound
+				for _, ci := range sites {
+					if mentions >= len(ci.Common().Args) {
+						hull = nil
+						break
+					}
+					cv := pf.view(ci.Parent())
+					tc := substTerm(t, vw.Term(fn.Params[mentions]).String(), cv.Term(ci.Common().Args[mentions]))
+					cb := pf.boundsInterproc(ci.Block(), tc, init, depth+1)
+					if hull == nil {
+						cp := cb
+						hull = &cp
+						continue
+					}
+					if !(hull.hasLo && cb.hasLo) {
+						hull.hasLo = false
+					} else if cb.lo < hull.lo {
+						hull.lo = cb.lo
+					}
+					if !(hull.hasHi && cb.hasHi) {
+						hull.hasHi = false
+					} else if cb.hi > hull.hi {
+						hull.hi = cb.hi
+					}
+					hull.excluded = map[int64]bool{}
+				}
+				if hull != nil {
+					b = meet(b, *hull)
+				}
+			}
+		}
+	}
+	return b
 }
